@@ -734,7 +734,7 @@ func (e *Env) runFrom(fr *Frame, st *State, b *ssa.BasicBlock, idx int, prev *ss
 			_ = v
 			st.panics = "explicit panic at " + e.pos(x.Pos())
 			if e.nopanic && e.specMode == 0 {
-				e.oblige(st, "nopanic", "panic@"+e.pos(x.Pos()), "false", "explicit panic reachable", x.Pos())
+				e.oblige(st, "nopanic", fmt.Sprintf("panic#%d(%s)@%s", panicOrdinal(x), fr.fn.Name(), e.pos(x.Pos())), "false", "explicit panic reachable", x.Pos())
 			}
 			return []Out{{st: st}}
 		case *ssa.RunDefers:
@@ -834,6 +834,21 @@ func (e *Env) deferDroppable(c *ssa.CallCommon) bool {
 		}
 	}
 	return true
+}
+
+// panicOrdinal: 1-based index of an explicit panic among the panics of its function, in source order.
+func panicOrdinal(p *ssa.Panic) int {
+	fn := p.Parent()
+	n := 0
+	for _, b := range fn.Blocks {
+		for _, ins := range b.Instrs {
+			if q, ok := ins.(*ssa.Panic); ok && q.Pos() <= p.Pos() {
+				_ = q
+				n++
+			}
+		}
+	}
+	return n
 }
 
 func (e *Env) assignPhis(fr *Frame, st *State, b, prev *ssa.BasicBlock) {
